@@ -395,6 +395,22 @@ pub fn run_property(p: &PropertyDef, tier: Tier, seed: u64) -> i32 {
 
     // 1. replay the saved reproductions of known findings of this property
     for e in known_entries().iter().filter(|e| e.property == p.id) {
+        if e.status == "fixed" {
+            // regression replay of a repaired defect: suppresses nothing
+            if let Some(rp) = &e.replay {
+                let path = format!("{}/{}", VERIF_DIR, rp);
+                match replay_file(p, &path) {
+                    Ok(Ok(_)) => {}
+                    Ok(Err(msg)) => {
+                        println!("VIOLATION property={} replay={}", p.id, path);
+                        println!("  (repaired defect {} is back: {})", e.key, msg);
+                        violations.push((path.clone(), msg));
+                    }
+                    Err(err) => println!("note: cannot replay {}: {}", rp, err),
+                }
+            }
+            continue;
+        }
         if e.status != "known" {
             continue;
         }
